@@ -734,7 +734,35 @@ string run_replay(const string &text) {
 
 } // namespace
 
+#ifdef VERIF_FUZZ
+#include <fuzzer/FuzzedDataProvider.h>
+
+extern "C" int LLVMFuzzerInitialize(int *, char ***) { p_libsys_init(); vl::fuzz_init(); return 0; }
+extern "C" int LLVMFuzzerTestOneInput(const uint8_t *data, size_t size) {
+  FuzzedDataProvider fdp(data, size);
+  static const std::string prop = vl::env("VERIF_PROP", "C12");
+  Case c;
+  c.type = fdp.ConsumeIntegralInRange<int>(0, 2); c.cmp = fdp.ConsumeIntegralInRange<int>(0, 2); c.ctor = fdp.ConsumeIntegralInRange<int>(0, 2); c.notif = fdp.ConsumeIntegralInRange<int>(0, 7);
+  static const int us[] = {3, 8, 64, 5000}; c.universe = us[fdp.ConsumeIntegralInRange<int>(0, 3)];
+  if (prop == "C13" && c.type == 0) c.type = 1; if (prop == "C14") c.ctor = 2;
+  while (fdp.remaining_bytes() > 0 && c.ops.size() < 400) {
+    static const char kinds[] = {'i', 'i', 'i', 'r', 'r', 'l', 'f', 'c', 'B', 'D'};
+    Op o; o.kind = kinds[fdp.ConsumeIntegralInRange<int>(0, 9)];
+    o.a = fdp.ConsumeIntegralInRange<int>(o.kind == 'f' ? -1 : 0, o.kind == 'B' || o.kind == 'D' ? 4 : (c.universe > 64 ? 5000 : c.universe));
+    if (o.kind == 'B') { o.b = fdp.ConsumeIntegralInRange<int>(0, c.universe); o.c = fdp.ConsumeIntegralInRange<int>(1, 300); o.d = fdp.ConsumeIntegralInRange<int>(1, 3); }
+    if (o.kind == 'D') o.b = fdp.ConsumeIntegralInRange<int>(1, 200);
+    c.ops.push_back(o);
+  }
+  std::string text = to_text(c);
+  vl::set_current_case("fuzz", text);
+  Outcome o = run_case(c, prop);
+  vl::stats().record(text, o.nontrivial, o.fp);
+  if (!o.verdict.empty()) vl::fuzz_report("fuzz", text, prop + ":" + o.klass + ": " + o.verdict, o.klass);
+  return 0;
+}
+#else
 int main(int argc, char **argv) {
   p_libsys_init();
   return vl::harness_main(argc, argv, run_generated, run_replay);
 }
+#endif
